@@ -129,6 +129,14 @@ let handle_h f =
     (match read_cleartext (dpar reg) b1 with
      | Some es' when shape es' = shape es && write_cleartext dser es' = Some b1 -> ()
      | _ -> failwith "model round trip of the binary keyset");
+    (* ... and through the JSON text: the model prints the keyset (model/JsonKeyset.v) and its
+       JSON reader gives the same handle back (C12_registry_json_cleartext_roundtrip) *)
+    (match write_cleartext_json dser es with
+     | Some text ->
+       (match read_cleartext_json (dpar reg) text with
+        | Some es' when shape es' = shape es && write_cleartext dser es' = Some b1 -> ()
+        | _ -> failwith "model round trip of the JSON keyset")
+     | None -> failwith "write_cleartext_json");
     let e1 =
       if kek_kind <> "gcm" then "-" else begin
         let iv = firstn_l 12 tape in
@@ -159,6 +167,29 @@ let handle_h f =
       | None -> "-" in
     "ok|" ^ shape es ^ "|" ^ hexs b1 ^ "|" ^ e1 ^ "|" ^ pb ^ ""
 
+(* T|tag|K or E|<json text hex>: the JSON text of a Keyset / EncryptedKeyset through the JSON reader.
+   The model parses the TEXT itself and prints the message as canonical protobuf bytes. *)
+let handle_t f =
+  let text = unhex f.(3) in
+  if f.(2) = "K" then begin
+    (* the printer on what the reader produced: print, read back, same message *)
+    (match keyset_of_json_text text with
+     | Some jks ->
+       (match keyset_of_json_text (json_text_of_keyset jks) with
+        | Some jks' when jks' = jks -> ()
+        | _ -> failwith "model: printed keyset text does not read back")
+     | None -> ());
+    match canon_keyset_bytes text with Some b -> "ok|" ^ hexs b | None -> "err"
+  end else begin
+    (match encrypted_of_json_text text with
+     | Some e ->
+       (match encrypted_of_json_text (json_text_of_encrypted e) with
+        | Some e' when e' = e -> ()
+        | _ -> failwith "model: printed EncryptedKeyset text does not read back")
+     | None -> ());
+    match canon_encrypted_bytes text with Some b -> "ok|" ^ hexs b | None -> "err"
+  end
+
 let handle (line : string) : string =
   let f = Array.of_list (String.split_on_char '|' line) in
   match f.(0) with
@@ -166,6 +197,7 @@ let handle (line : string) : string =
   | "P" -> handle_p f
   | "W" -> handle_w f
   | "H" | "M" | "N" -> handle_h f  (* M, N: the same keyset, the handle built through keyset.Manager *)
+  | "T" -> handle_t f
   | "U" -> "u"  (* direct check only: a handle with a key its serializer refuses *)
   | "GENFAIL" -> "genfail-not-expected"
   | _ -> failwith "case kind"
